@@ -108,6 +108,19 @@ class CallGraph:
                         add_fnconst(fc, i, 'arg')
         # locals of closure type created elsewhere (e.g. moved in) are covered by 'aggr closure'
 
+    def sites_for(self, body):
+        """Call sites of a body as it is handed in — in particular a derived form (loop / nest form with spliced closures and
+        helpers) whose block numbers differ from the body registered under the same path."""
+        reg = self.f.bodies.get(getattr(body, 'key_in_facts', body.path))
+        if reg is body:
+            return self.sites.get(self._key_of(body), [])
+        key = ('derived', id(body))
+        if key not in self.sites:
+            self._scan(key, body)
+            self.edges.pop(key, None)
+            self.ext.pop(key, None)
+        return self.sites[key]
+
     def _key_of(self, body):
         return getattr(body, 'key_in_facts', body.path)
 
